@@ -503,6 +503,12 @@ func (c *rdCase) step(o op, newInfo *hinfo) {
 		c.info = append(c.info, ni)
 	}
 	// ---- panics
+	if slow.panicked != dyn.panicked && o.h != 0 && c.info[o.h].kind == hMsg {
+		// below the top level the "slow" world's message handles are the nested type's own generated
+		// reflection (section 2.4: contaminated), so dynamicpb alone arbitrates panics there
+		slow.panicked = dyn.panicked
+		c.rep.Count("C08", "panic-arbitrated-by-dynamicpb-alone", 1)
+	}
 	if slow.panicked != dyn.panicked {
 		if len(c.rep.Notes) < 6 {
 			c.rep.Notes = append(c.rep.Notes, fmt.Sprintf("references disagree on panic (slow=%v dyn=%v) at %s of %s; history %s; %s%s", slow.panicked, dyn.panicked, o, c.tn, strings.Join(c.hist, " ; "), firstLine(slow.pmsg), firstLine(dyn.pmsg)))
